@@ -93,6 +93,19 @@ func (g *Gen) callExternal(e *Ev, fn *types.Func, recv *Term, args []Term, n *as
 			}
 		}
 	}
+	// caller-specific call-site assertions on externals: arg_0, arg_1, ... (receiver first)
+	{
+		bind := map[string]Term{}
+		k := 0
+		if recv != nil {
+			bind["arg_0"] = *recv
+			k = 1
+		}
+		for i, a := range args {
+			bind[fmt.Sprintf("arg_%d", i+k)] = a
+		}
+		e.checkCallsite(key, n, bind)
+	}
 	var results []Term
 	for i := 0; i < sig.Results().Len(); i++ {
 		rt := sig.Results().At(i).Type()
@@ -112,6 +125,43 @@ func (g *Gen) callExternal(e *Ev, fn *types.Func, recv *Term, args []Term, n *as
 			s = nm
 		}
 		results = append(results, Term{S: s, Sort: rs, T: rt, Signed: isSigned(rt)})
+	}
+	// assumed contract of the dependency (`extern KEY(params)` block): a sentence of its documentation
+	for _, blk := range g.C.Blocks {
+		if blk.Kind != "extern" || !strings.HasPrefix(blk.Target, key+"(") {
+			continue
+		}
+		hdr := blk.Target
+		i := strings.Index(hdr, "(")
+		j := strings.LastIndex(hdr, ")")
+		var pnames []string
+		for _, p := range strings.Split(hdr[i+1:j], ",") {
+			f := strings.Fields(p)
+			if len(f) > 0 {
+				pnames = append(pnames, f[0])
+			}
+		}
+		all := args
+		if recv != nil {
+			all = append([]Term{*recv}, args...)
+		}
+		if len(pnames) != len(all) {
+			e.errorf(n, "extern %s: %d names for %d arguments", hdr, len(pnames), len(all))
+			break
+		}
+		ce := &Ev{u: e.u, st: e.st, old: e.st, spec: true, pos: e.pos, bv: e.bv, bound: map[string]Term{}, quiet: true, qvars: e.qvars}
+		if !ce.pos.IsValid() {
+			ce.pos = e.u.bodyPos
+		}
+		for k, pn := range pnames {
+			ce.bound[pn] = all[k]
+		}
+		ce.results = results
+		for _, c := range blk.clauses("ensures") {
+			t := ce.evSpec(c.Text)
+			e.assumeQ(smtImp(e.guardCond(), t.S))
+			g.Assumed["assumed contract of "+key+": "+c.Text] = true
+		}
 	}
 	switch len(results) {
 	case 0:
